@@ -11,6 +11,7 @@ from sim import adapters, workload
 from sim.core import EndRun, canon, np_seed
 
 PROP = "C16"
+FORKS = True      # snapshot / restore events (core.Ctx.maybe_fork)
 LEVEL = "exploration"
 RULE = (
     "DDM, EDDM, STEPD, ADWINAccuracy: per event one of 8 label encodings (other ints, strings, bools, floats, >=3 classes, "
@@ -124,6 +125,7 @@ def run(case, ctx):
     used = set()
     for i, ev in enumerate(case["events"]):
         ctx.step = i
+        P = ctx.maybe_fork(P)
         if sc == "err":
             (kind, a, b), j = ev
             ctx.call(f"C16:{name}:update", P.update, _decode(kind, a), _decode(kind, b), X=junk(j))
